@@ -10,7 +10,8 @@ RULE = ("the documented pull/receive loop on all 14 real classes (wrappers over 
         "counted separately; non-trivial = >= 3 rounds completed; distinct = distinct configuration+history")
 ASSUMPTIONS = ["totality / in-domain theorems are about the Lean models over ordered fields; they are tied to /repo by differential "
                "execution; IEEE overflow of lo+hi is not modelled (boxes up to 1e6 are explored)",
-               "StroquOOL has no Lean model yet: its part of C01 is exploration only"]
+               "StroquOOL: modelled and compared in lock-step like the others; its theorems (Props/StroquOOL.lean) cover crediting, "
+               "the recommendation and the end behaviour, not a loop-totality theorem of its own"]
 TRUSTED = ["harness/algo_cases.py, harness/monitors.py, harness/common.py (instrumented partition subclasses, RNG patching, SIGALRM budget)", "lean/PyXABModel/Drv (driver)"]
 
 # directed cases, run first on every check: one per recorded finding (so that each is re-established
